@@ -8,8 +8,8 @@ Driver of C10 (stateful). Requests (see `harness/c10.py`):
   drop <k>                        del conf k; gc.collect()
   setglobal <k>                   set_global_colors_config(conf k); gc.collect()
   enum <e> / dropenum <e>         a PPEnumFieldType is created / released
-  render <kind> <k|g> <mode> <top> <subs> <lines>
-                                  kind obj|rec|hcmd, mode c (coloured) n (no colour) l / m (line-wise coloured / no colour)
+  render <o> <kind> <k|g> <mode> <top> <subs> <lines>
+                                  o = object number (ignored here), kind obj|rec|hcmd, mode c (coloured) n (no colour) l / m (line-wise coloured / no colour)
   gp <i> / gpi <syntax id>        str(global_palette.<accessor i>("x")) / str(global_palette[id]("x"))
 -/
 open Ak Ak.Proto Render PaletteState
@@ -114,7 +114,7 @@ def handle (s : State) (line : String) : State × String :=
     match e.toNat? with
     | some e => (collect cfg (dropEnum e s), "ok")
     | none => (s, "bad-op")
-  | ["render", kind, k, mode, top, subs, lines] =>
+  | ["render", _obj, kind, k, mode, top, subs, lines] =>
     match confOf s k, top.toNat?, parseNatList subs, parseLines lines with
     | some k, some top, some subs, some ls =>
       let nc := mode = "n" || mode = "m"
